@@ -363,7 +363,7 @@ pub fn run(cfg: RunCfg) {
         sort_strategy, check_sort
     );
     vh_core::section!(
-        rep, "candidates", (1_500, 100_000), 16,
+        rep, "candidates", (5_000, 100_000), 16,
         "real node driver with a generated routing table and responsible range; non-trivial: >= 5 peers inserted and a range set",
         cand_strategy, check_cand
     );
